@@ -1,6 +1,8 @@
 package main
 
 import (
+	"sync"
+	"go/ast"
 	"go/constant"
 	"go/token"
 	"go/types"
@@ -203,6 +205,30 @@ func (x *Exec) loopEnv(fr *Frame, li *loopInfo, phiVals map[*ssa.Phi]Val, st *St
 	for phi, v := range phiVals {
 		if phi.Comment != "" {
 			env.vars[phi.Comment] = v
+		}
+	}
+	// locals that are assigned exactly once (`name := expr`, never reassigned) are visible by their source name: the SSA
+	// value is found by the position of the right-hand side (call: its "(", composite literal: its "{")
+	for name, pos := range singleAssignLocals(fr.fn) {
+		if _, taken := env.vars[name]; taken {
+			continue
+		}
+		var hit ssa.Value
+		n := 0
+		for v := range fr.env {
+			if _, isPhi := v.(*ssa.Phi); isPhi {
+				continue
+			}
+			if _, isInstr := v.(ssa.Instruction); !isInstr {
+				continue
+			}
+			if v.Pos() == pos && v.Pos() != token.NoPos {
+				hit = v
+				n++
+			}
+		}
+		if n == 1 {
+			env.vars[name] = fr.env[hit]
 		}
 	}
 	if le := fr.loopEntry[li.head]; le != nil {
@@ -458,4 +484,68 @@ func lexLess(now, before []*Term) *Term {
 		prefixEq = append(prefixEq, eq(now[i], before[i]))
 	}
 	return or(alts...)
+}
+
+var singleAssignMemo = map[*ssa.Function]map[string]token.Pos{}
+var singleAssignMu sync.Mutex
+
+// singleAssignLocals: identifiers defined by exactly one `name := expr` (one name, one expression) in the function's
+// source and assigned nowhere else, with the position the SSA builder gives to the value of expr.
+func singleAssignLocals(fn *ssa.Function) map[string]token.Pos {
+	singleAssignMu.Lock()
+	defer singleAssignMu.Unlock()
+	if m, ok := singleAssignMemo[fn]; ok {
+		return m
+	}
+	out := map[string]token.Pos{}
+	count := map[string]int{}
+	syn := fn.Syntax()
+	if syn != nil {
+		ast.Inspect(syn, func(n ast.Node) bool {
+			switch st := n.(type) {
+			case *ast.FuncLit:
+				return n == syn // do not descend into nested literals
+			case *ast.AssignStmt:
+				for _, l := range st.Lhs {
+					if id, ok := l.(*ast.Ident); ok {
+						count[id.Name]++
+					}
+				}
+				if st.Tok == token.DEFINE && len(st.Lhs) == 1 && len(st.Rhs) == 1 {
+					if id, ok := st.Lhs[0].(*ast.Ident); ok {
+						switch r := st.Rhs[0].(type) {
+						case *ast.CallExpr:
+							out[id.Name] = r.Lparen
+						case *ast.CompositeLit:
+							out[id.Name] = r.Lbrace
+						}
+					}
+				}
+			case *ast.IncDecStmt:
+				if id, ok := st.X.(*ast.Ident); ok {
+					count[id.Name] += 2
+				}
+			case *ast.RangeStmt:
+				for _, e := range []ast.Expr{st.Key, st.Value} {
+					if id, ok := e.(*ast.Ident); ok {
+						count[id.Name] += 2
+					}
+				}
+			case *ast.UnaryExpr:
+				if st.Op == token.AND {
+					if id, ok := st.X.(*ast.Ident); ok {
+						count[id.Name] += 2 // address taken: may be written through the pointer
+					}
+				}
+			}
+			return true
+		})
+	}
+	for name := range out {
+		if count[name] != 1 {
+			delete(out, name)
+		}
+	}
+	singleAssignMemo[fn] = out
+	return out
 }
